@@ -24,7 +24,7 @@ from rules._siblings import priority_signature
 from sa.cfg import CFG, guards
 from sa.model import AnalysisError, Function, Repo, calls_in, const_str, dotted, full, norm, own_nodes, parent
 from sa.match import Locals, conjuncts, match, names_in
-from sa.report import Report
+from sa.report import Report, with_flatten_fallback
 from sa.templates import HOLE, template_of
 
 HANDLER = "visit.endpoint.generators.response_handler_generator"
@@ -133,37 +133,41 @@ def run(repo: Repo, rep: Report, tier: str) -> None:
         fn = hmod.classes["EndpointResponseHandlerGenerator"].methods.get(mname)
         if fn is None:
             raise AnalysisError(f"anchor vanished: {mname}")
-        _json_guard(fn, rep)
+        with_flatten_fallback(rep, fn, _json_guard)
 
     # ---------------------------------------------------------------- R5.5 no-content => None
     grh = hmod.classes["EndpointResponseHandlerGenerator"].methods.get("generate_response_handling")
     if grh is None:
         raise AnalysisError("anchor vanished: generate_response_handling")
-    cfg = CFG(grh.node)
-    dom = cfg.dominators()
-    GL = Locals(grh.node)
-    none_writes = [n for n in cfg.nodes if n.kind == "stmt" and n.ast is not None and any(
-        isinstance(c.func, ast.Attribute) and c.func.attr == "write_line" and c.args and const_str(c.args[0]) == "return None" for c in calls_in(n.ast))]
-    prim = sec = False
-    for n in none_writes:
-        gs = [(g, pol) for g, pol in guards(cfg, n.id, dom) if g.kind == "test" and pol is not None]
-        for g, pol in gs:
-            for cj in (conjuncts(g.ast, GL, stop=tuple(GL.params)) if pol else [GL.inline(g.ast, stop=tuple(GL.params))]):
-                eff = pol
-                while isinstance(cj, ast.UnaryOp) and isinstance(cj.op, ast.Not):
-                    cj, eff = cj.operand, not eff
-                m_eq = match("ANY_s.return_type == 'None'", cj)
-                m_ne = match("ANY_s.return_type != 'None'", cj)
-                if (m_eq is not None and eff) or (m_ne is not None and not eff):
-                    prim = True
-                if isinstance(cj, ast.Attribute) and cj.attr == "content" and not eff:
-                    sec = True
-    for label, okv in (("primary response without content", prim), ("secondary 2xx response without content", sec)):
-        sub = f"{grh.module.relpath}:generate_response_handling {label}"
-        if okv:
-            rep.ok("R5.5", sub, "`return None` is emitted under that guard", grh.loc())
-        else:
-            rep.violation("R5.5", sub, f"{grh.fq}|no-content|{label}", "a declared success response without content no longer yields `return None`", grh.loc())
+    def _no_content_rules(grh_: Function, rep) -> None:
+        cfg = CFG(grh_.node)
+        dom = cfg.dominators()
+        GL = Locals(grh_.node)
+        none_writes = [n for n in cfg.nodes if n.kind == "stmt" and n.ast is not None and any(
+            isinstance(c.func, ast.Attribute) and c.func.attr == "write_line" and c.args and const_str(c.args[0]) == "return None" for c in calls_in(n.ast))]
+        prim = sec = False
+        for n in none_writes:
+            gs = [(g, pol) for g, pol in guards(cfg, n.id, dom) if g.kind == "test" and pol is not None]
+            for g, pol in gs:
+                for cj in (conjuncts(g.ast, GL, stop=tuple(GL.params)) if pol else [GL.inline(g.ast, stop=tuple(GL.params))]):
+                    eff = pol
+                    while isinstance(cj, ast.UnaryOp) and isinstance(cj.op, ast.Not):
+                        cj, eff = cj.operand, not eff
+                    m_eq = match("ANY_s.return_type == 'None'", cj)
+                    m_ne = match("ANY_s.return_type != 'None'", cj)
+                    if (m_eq is not None and eff) or (m_ne is not None and not eff):
+                        prim = True
+                    if isinstance(cj, ast.Attribute) and cj.attr == "content" and not eff:
+                        sec = True
+        for label, okv in (("primary response without content", prim), ("secondary 2xx response without content", sec)):
+            sub = f"{grh_.module.relpath}:generate_response_handling {label}"
+            if okv:
+                rep.ok("R5.5", sub, "`return None` is emitted under that guard", grh_.loc())
+            else:
+                rep.violation("R5.5", sub, f"{grh_.fq}|no-content|{label}", "a declared success response without content no longer yields `return None`", grh_.loc())
+
+
+    with_flatten_fallback(rep, grh, _no_content_rules)
 
     _streaming_runtime(repo, rep)
     _stream_classification(repo, rep)
@@ -171,7 +175,22 @@ def run(repo: Repo, rep: Report, tier: str) -> None:
 
     # ---------------------------------------------------------------- R5.6 streaming delegation
     wsr = hmod.classes["EndpointResponseHandlerGenerator"].methods["_write_strategy_based_return"]
-    lines = [const_str(c.args[0]) for c in calls_in(wsr.node) if isinstance(c.func, ast.Attribute) and c.func.attr == "write_line" and c.args and const_str(c.args[0])]
+    from sa.flatten import flatten as _flatten
+
+    def _const_text(e: ast.AST) -> Optional[str]:
+        """the text of a write_line argument when it is constant: a literal, or a concatenation / f-string of literals"""
+        if const_str(e) is not None:
+            return const_str(e)
+        if isinstance(e, ast.BinOp) and isinstance(e.op, ast.Add):
+            a_, b_ = _const_text(e.left), _const_text(e.right)
+            return a_ + b_ if a_ is not None and b_ is not None else None
+        if isinstance(e, ast.JoinedStr) and all(isinstance(v, ast.Constant) for v in e.values):
+            return "".join(str(v.value) for v in e.values)
+        return None
+
+    WL = Locals(_flatten(wsr).node)
+    lines = [_const_text(WL.inline(c.args[0])) for c in calls_in(_flatten(wsr).node) if isinstance(c.func, ast.Attribute) and c.func.attr == "write_line" and c.args
+             and _const_text(WL.inline(c.args[0]))]
     want = {"async for chunk in iter_bytes(response):": "yield chunk", "async for chunk in iter_sse_events_text(response):": "yield json.loads(chunk)"}
     for head, body in want.items():
         sub = f"{wsr.module.relpath}:_write_strategy_based_return streaming `{head[:45]}`"
